@@ -181,4 +181,28 @@ P("uint-params", "export function f(uint u, int i) -> int { int d = i - 7; uint 
 P("uint-vector-and-int", "export function f(uint3 q, int k) -> int { int s = k - 10; uint t = q.x + q.z; return s + t; }",
   args=[dict(q=[1, 2, 3], k=-5)])
 
+P("empty-function-bodies",
+  "function hook(int a) -> void {}\nfunction twice(int a) -> int { hook(a); { } return a * 2; }\nexport function reset() -> void {}\n"
+  "export function f(int a) -> int { hook(a); int r = twice(a); hook(r + 1); reset(); return r + a; }",
+  args=[dict(a=3), dict(a=-1)], expect=[9, -3])
+P("empty-exported-function", "export function f() -> void {}", args=[{}])
+
 PROGRAMS = [(e["name"], e["src"]) for e in ENTRIES]
+
+# Programs the compiler may reject (constructs of the grammar the front end does not carry through today): nothing is
+# demanded of a rejection; IF one is accepted, everything that holds for accepted programs is demanded of it.
+_n = len(ENTRIES)
+P("optional-parameter-omitted",
+  "function scale(float a, __optional float b) -> float { return a * 2.0; }\nexport function f(float x) -> float { return scale(x) + scale(x, 3.0); }",
+  args=[dict(x=1.5)])
+P("optional-parameter-read",
+  "function scale(float a, __optional float b) -> float { return a * b; }\nexport function f(float x) -> float { return scale(x); }",
+  args=[dict(x=1.5)])
+P("optional-parameter-two",
+  "function pick(int a, __optional int b, __optional int c) -> int { return a; }\nexport function f(int x) -> int { return pick(x) + pick(x, 1) + pick(x, 1, 2); }",
+  args=[dict(x=4)])
+P("forward-declaration", "function g(int a) -> int;\nexport function f(int x) -> int { return x + 1; }", args=[dict(x=4)])
+P("forward-declaration-called", "function g(int a) -> int;\nexport function f(int x) -> int { return g(x) + 1; }", args=[dict(x=4)])
+MAYBE_ENTRIES = ENTRIES[_n:]
+del ENTRIES[_n:]
+MAYBE_PROGRAMS = [(e["name"], e["src"]) for e in MAYBE_ENTRIES]
